@@ -2,7 +2,7 @@
 # executor, the history-acceptance comparison against the explored model, the oracles.
 import re
 
-EXEC = ("mq", "mqs")
+EXEC = ("mq", "mqs", "rv")
 MODEL_AFTER_IMPL = True
 PER_SHARD = 40
 IMPL_SHARDS = 8           # timing windows: do not oversubscribe the machine
@@ -57,6 +57,8 @@ def mqs_threads(case):
 
 
 def model_line(case, obs):
+    if case.startswith("rv "):
+        return case
     if case.startswith("mqs "):
         o = parse_mqs(obs)
         if o is None:
@@ -77,6 +79,8 @@ def model_line(case, obs):
 
 
 def agree(im, mo):
+    if im.startswith("total="):
+        return im == mo
     if im.startswith("labels="):
         return mo.startswith("LOCKSTEP-OK")
     o = parse_impl(im)
@@ -138,9 +142,26 @@ def oracle_mqs(case, obs, c17=False):
     return "OK"
 
 
+def oracle_rv(case, obs):
+    f = case.split(" ")
+    n = int(f[2]) * int(f[3])
+    m = re.match(r"total=(\d+) dup=(\d+) non200=(\d+) missing=(\d+)", obs)
+    if not m:
+        return "FAIL implementation: " + obs[:200]
+    total, dup, non200, missing = (int(x) for x in m.groups())
+    if dup:
+        return "FAIL %d request(s) were handed to the application twice" % dup
+    if total != n or non200 or missing:
+        return ("FAIL %d requests sent, %d handed to the application; %d client answer(s) were not 200 and %d never came "
+                "(requests taken off the queue without reaching the application)" % (n, total, non200, missing))
+    return "OK"
+
+
 def oracle_c07(case, obs):
     """From the property text: every pushed request is handed out exactly once (or is still queued), a
     single receiver sees them in push order, and no request stays queued while a receiver stays blocked."""
+    if case.startswith("rv "):
+        return oracle_rv(case, obs)
     if case.startswith("mqs "):
         return oracle_mqs(case, obs)
     o = parse_impl(obs)
